@@ -5,6 +5,7 @@
  * script (one command per line; several scripts per process separated by `--- <id>`):
  *   cfg key=val ...         k w t0 t1 t2 t3 mode(0 single,1 conn,2 multi) lowq highq maxconn cot ca ioa maxasdu
  *                           handlers(bit mask) hret burst bsize term reqret raw
+ *                           setmax (1: call CS104_Slave_setMaxOpenConnections(maxconn) also for maxconn <= 0 = "no limit")
  *   group <ip,ip,...|->     add a redundancy group (before start; `-` = catch-all)
  *   start | stop | destroy | restart
  *   connect c<i> <peer>     queue an incoming TCP connection (accepted by the next tick)
@@ -15,14 +16,23 @@
  *   peerclose c<i> | wmode c<i> <0|1|2> | appclose c<i>
  *   poke c<i> vs=<n> vr=<n> start both counters at n (white-box)
  *   dump                    white-box state of every used connection and queue
+ *   create                  (C18) CS104_Slave_create + configuration without starting (start/group also create on demand)
+ *   slots                   (C18) white-box: `slots used=<n> running=<n> started=<n>` counted over the connection table
+ *   halnull                 (C18) `halnull <n>`: how often the library handed a NULL server socket to the HAL since the last query
  * trace: tx / ev / cb / send / req / open / st / q / sem lines (see DESIGN Appendix B) */
 #include <stdio.h>
 #include <stdlib.h>
 #include <string.h>
 #include "simhal.h"
+/* (C18) the simulated HAL tolerates a NULL listener, the real one (socket_linux.c ServerSocket_accept) dereferences it:
+   count such calls made by the library; nothing is printed unless a script asks with `halnull` */
+static int hal_null_calls = 0;
+static Socket h_ServerSocket_accept(ServerSocket s) { if (!s) hal_null_calls++; return ServerSocket_accept(s); }
+#define ServerSocket_accept h_ServerSocket_accept
 #include "cs104_slave.c"
+#undef ServerSocket_accept
 
-#define MAXC 16
+#define MAXC 192
 static CS104_Slave slave = NULL;
 static Socket socks[MAXC];
 static int nsocks = 0;
@@ -31,6 +41,7 @@ static CS104_RedundancyGroup groups[8]; static int ngroups = 0;
 static struct {
     int k, w, t0, t1, t2, t3, mode, lowq, highq, maxconn, cot, ca, ioa, maxasdu;
     int handlers, hret, burst, bsize, term, reqret, raw;
+    int setmax;
 } cfg;
 static int reply_counter = 0;
 /* a well-behaved peer kept by the harness: how many I-frames it has sent / has seen from the server */
@@ -173,6 +184,7 @@ static void make_slave(void)
     CS101_AppLayerParameters al = CS104_Slave_getAppLayerParameters(slave);
     al->sizeOfCOT = cfg.cot; al->sizeOfCA = cfg.ca; al->sizeOfIOA = cfg.ioa; al->maxSizeOfASDU = cfg.maxasdu;
     if (cfg.maxconn > 0) CS104_Slave_setMaxOpenConnections(slave, cfg.maxconn);
+    else if (cfg.setmax) CS104_Slave_setMaxOpenConnections(slave, cfg.maxconn);   /* 0 / negative: the library's "no limit" */
     if (cfg.handlers & 1) CS104_Slave_setInterrogationHandler(slave, h_interrogation, NULL);
     if (cfg.handlers & 2) CS104_Slave_setCounterInterrogationHandler(slave, h_counter, NULL);
     if (cfg.handlers & 4) CS104_Slave_setReadHandler(slave, h_read, NULL);
@@ -193,6 +205,7 @@ static void reset_all(void)
     nsocks = 0; ngroups = 0; reply_counter = 0;
     Sim_reset(); Sim_setTime(1000000); sim_sem_errors = 0;
     cfg_default();
+    hal_null_calls = 0;
 }
 
 int main(void)
@@ -211,7 +224,7 @@ int main(void)
                 if (sscanf(tok, "%31[^=]=%d", key, &val) != 2) continue;
 #define K(n) if (!strcmp(key, #n)) cfg.n = val;
                 K(k) K(w) K(t0) K(t1) K(t2) K(t3) K(mode) K(lowq) K(highq) K(maxconn) K(cot) K(ca) K(ioa) K(maxasdu)
-                K(handlers) K(hret) K(burst) K(bsize) K(term) K(reqret) K(raw)
+                K(handlers) K(hret) K(burst) K(bsize) K(term) K(reqret) K(raw) K(setmax)
             }
             if (slave) {   /* live re-configuration: the APCI parameters are read by the library at the points it chooses */
                 CS104_APCIParameters ap = CS104_Slave_getConnectionParameters(slave);
@@ -281,6 +294,16 @@ int main(void)
             MasterConnection mc = con_of(ci); if (mc) { mc->sendCount = (uint16_t) vs; mc->receiveCount = (uint16_t) vr; peer_seen[ci] = vs; peer_ns[ci] = vr; }
         }
         else if (!strcmp(cmd, "dump")) { dump(); printf("st end\n"); }
+        else if (!strcmp(cmd, "create")) { if (!slave) make_slave(); }
+        else if (!strcmp(cmd, "slots")) {
+            int u = 0, r = 0, a = 0;
+            if (slave) for (int i = 0; i < CONFIG_CS104_MAX_CLIENT_CONNECTIONS; i++) {
+                MasterConnection mc = slave->masterConnections[i];
+                if (mc && mc->isUsed) { u++; if (mc->isRunning) r++; if (mc->state == M_CON_STATE_STARTED) a++; }
+            }
+            if (slave) printf("slots used=%d running=%d started=%d\n", u, r, a);
+        }
+        else if (!strcmp(cmd, "halnull")) { printf("halnull %d\n", hal_null_calls); hal_null_calls = 0; }
         else printf("? %s", line);
         drain();
         fflush(stdout);
